@@ -18,7 +18,7 @@ for p in sorted(glob.glob(os.path.join(ROOT, "seeded", "*", "meta.json"))):
     summ = re.sub(r"\s+", " ", m.get("summary") or "")[:170]
     files = ", ".join(f.replace("src/", "") for f in (m.get("files_changed") or []))
     rows.append(f"| {name} | {files} | {summ} | {chk.get('verdict','?')}: {first} | {also or '–'} | {silent or '–'} |")
-text = f"""One hundred and twenty changes were produced in three rounds by fresh sub-agents (twenty agents per
+text = f"""One hundred and sixty changes were produced in four rounds by fresh sub-agents (twenty agents per
 round, two changes per property and round; from round 2 on each agent was told which
 ideas round 1 had used and asked for different functions, drivers and kinds of mistake), each given
 only the property text and its own scratch worktree of `/repo` — nothing from `/verif`.  Each change
@@ -26,7 +26,8 @@ compiles, passes the 57 existing tests, and comes with a demonstration that fail
 without it; all of that was re-confirmed by `tools/seed_eval.py` in a scratch worktree (build with and
 without the guard, suite, demonstration both ways) before the checks were run against it.  They are kept
 under `seeded/<id>/` (`patch.diff`, the demonstration, `meta.json` with what was run and the verdicts;
-ids `Cxx-1/2` = round 1, `Cxx-3/4` = round 2, `Cxx-5/6` = round 3, whose agents were additionally asked
+ids `Cxx-1/2` = round 1, `Cxx-3/4` = round 2, `Cxx-5/6` = round 3, `Cxx-7/8` = round 4; the agents of
+rounds 3 and 4 were additionally asked
 for changes that would slip past a differential test driven by mostly well-formed random sequences
 and a simple device model: single feature combinations or transports, behaviour after an error
 path, numeric boundaries, interleavings of two queues or of blocking and non-blocking calls, unusual
@@ -77,8 +78,32 @@ Round 3, first pass: 23 of 40 concrete, 2 `no-failing-input-found` (C03-5, C10-6
 | C19-6 sound event queue gets INDIRECT/EVENT_IDX swapped | only visible with exactly one of the two features and after 32 768 events | `wrap-sound` floods with exactly one ring feature; oracle: every re-post is announced to an unsuppressed device |
 | C20-5 9P tag length read outside `read_consistent` | C20 never changed the configuration mid-read (C13 did) | C20 includes the 9P cases of C13's changing-configuration stream |
 
-Three check bugs surfaced on the way and were fixed (§9, 13–15).  All 120 are now reported with a
-concrete replay by the check of their own property.  The last two
+Round 4 (same brief as round 3, with the ideas of rounds 1–3 listed as taken), first pass: 21 of 40
+concrete, 5 `no-failing-input-found` (C05-8, C11-7, C13-8, C14-7, C20-8: only the model disagreed),
+14 missed:
+
+| missed | why | added |
+|---|---|---|
+| C01-7 `add_notify_wait_pop` recycles its own still-published chain when another chain's completion ends its wait | blocking calls were only issued on otherwise idle queues | `foreign-first` histories (earlier chain reported during the wait or pending before the call): `WrongToken`, own chain still published / shared / counted, history continues to full return; model op `anwpf`, theorem `anwp_foreign_first` |
+| C01-8 vsock TX queue gets INDIRECT/EVENT_IDX swapped | C01 looked at indirect tables on the bare queue only | C01 runs C08's construction + feature-gated operations for every driver: an indirect table only on queues that negotiated it |
+| C02-8 / C06-7 modern MMIO `queue_set` writes the wrong area's upper word into QueueDriverHigh / QueueDeviceHigh | the address oracle of the MMIO stream was only reported under C04 | the same oracle (each latched area address is the live DMA region of that area) is reported for C02, C04 and C06 |
+| C03-8 `pop_used` clamps the reported length to the writable capacity | the reference device never recorded more than it wrote | one completion in 16 records the readable part as well or an arbitrary 32-bit value; the recorded value must be handed on |
+| C04-8 GPU cursor backing attached by virtual address | C04 did not look inside request bodies | C04 runs the GPU stream: every `RESOURCE_ATTACH_BACKING` entry must be live DMA memory of its length |
+| C07-7 / C09-7 GPU `change_resolution` releases the old framebuffer before a failing tear-down has detached it | releases "after a device error" were excused (C20 speaks of error-free histories) | strict oracle in C20 and, via the GPU stream, in C07 and C09 — which fired on the unchanged set-up path too: defect F16, repaired (§11); theorem `backing_never_released_any_device` |
+| C07-8 `Dma::new` releases a region it never got when allocation fails | C07 did not inject allocation failures | C07 includes C09's fault-injection stream (ledger: release of something never allocated) |
+| C08-7 `add` falls back to an indirect table when the chain does not fit, feature or not | no oracle tied INDIRECT flags to the queue's configuration in the structured stream | oracle `[C08]`: a published head with INDIRECT on a queue created without the feature |
+| C10-8 MMIO config bounds check underflows for windows shorter than the access | only C13 swept offsets × widths × window lengths on MMIO | C10 includes C13's MMIO bounds stream |
+| C11-8 PCI `drop` gives up waiting for the reset after 1000 polls | the scripted device completed a reset within four polls | one drop in twelve needs 1001–3000 polls |
+| C15-7 `fmt::Write::write_char` override sends `c as u8` | only ASCII `write_str` went through `fmt::Write` | `write_char` / `write!("{{}}", c)` with 1- to 4-byte characters: the UTF-8 encoding must reach the device; encoder theorems |
+| C17-8 connection manager drops the last connection instead of the rejected one | C17 did not run the connection-table stream | C17 includes C18's stream |
+| C05-8 blocking request rewrites the caller's interrupt-suppression word | only the model disagreed | the caller's setting is varied before blocking requests; oracle: `avail.flags` unchanged across the call |
+| C11-7 common-configuration window accepted at 4 mod 8 | only the model disagreed (the success-path oracle used the specification's 4) | the driver uses 64-bit stores there: alignment 8 is demanded of an accepted window |
+| C13-8 block capacity read with "high, low, high" instead of the generation counter | only the model disagreed | A-B-A configuration changes (upper word returns to its earlier value): the result must be a value the device presented as a whole |
+| C14-7 `flush` skipped on read-only devices | only the model disagreed | oracle: with FLUSH negotiated, `Ok` requires that a flush request reached the device |
+| C20-8 9P reply buffer of exactly 7 bytes refused | only the model disagreed | oracle: a request with a 7-byte reply buffer must be emitted |
+
+Check bugs that surfaced on the way: §9, 13–17.  All 160 are now reported with a
+concrete replay by the check of their own property (re-run after the comparison changes of §9.16).  The last two
 columns come from running further related checks against a change (`tools/seed_cross.py`, run for part
 of round 1 only); † = reported as `no-failing-input-found`.
 
